@@ -111,6 +111,7 @@ func LoadProg(repo string, tests bool, tags string, overlay map[string][]byte) (
 	}
 	p.normalise()
 	p.index()
+	c10Prog = p
 	if q := os.Getenv("PINTSA_DUMP_FUNC"); q != "" {
 		if fi := p.Func(q); fi != nil {
 			fmt.Fprintf(os.Stderr, "---- %s (inlined calls in program: %d)\n", q, p.Inlined)
